@@ -475,12 +475,17 @@ def check_instance(model, st, snap, msgs):
         return name
 
     dtwin = model.twins[model.sources[model.default_idx]["font"]]
-    for gname, members in dtwin["groups"].items():
-        want = [ren_all(m) for m in members]
-        got = snap["groups"].get(gname)
-        if got is None or list(got) != want:
-            msgs.append("groups/%s model %r got %r" % (gname, want, got))
-        claims += 1
+    if swaps:
+        # C19 only speaks about group *references* under rule substitutions: every group
+        # the instance took over from the default source must name the swapped glyphs
+        for gname, members in dtwin["groups"].items():
+            got = snap["groups"].get(gname)
+            if got is None:
+                continue
+            want = [ren_all(m) for m in members]
+            if list(got) != want:
+                msgs.append("groups/%s model %r got %r" % (gname, want, got))
+            claims += 1
     # kerning: the model's value for every master pair, under the swapped names
     exp, groups = model.kerning_expect(st["loc"])
     if exp is not None:
@@ -494,25 +499,10 @@ def check_instance(model, st, snap, msgs):
             if not instmodel.num_close(v, got, model.rg):
                 msgs.append("kerning/%s model %r got %r" % (key, v, got))
             claims += 1
-    # the instance records its *full* design location (defaults filled in)
-    full = instmodel.full_location(st["loc"], model.bounds)
-    got_loc = snap["lib"].get("designspace.location")
-    want_loc = [[name, full[name]] for name in model.axis_order]
-    if got_loc is None or sorted(map(list, got_loc)) != sorted(want_loc):
-        msgs.append("lib/designspace.location model %r got %r" % (want_loc, got_loc))
-    claims += 1
-    # OS/2 weight / width class derived from the wght / wdth axes when no master sets them
-    for ax in model.axes_raw:
-        attr = {"wght": "openTypeOS2WeightClass", "wdth": "openTypeOS2WidthClass",
-                "slnt": "italicAngle"}.get(ax.get("tag"))
-        if attr is None or any(attr in model.twins[s_["font"]]["info"] for s_ in model.sources):
-            continue
-        user = instmodel.map_backward(ax, full[ax["name"]])
-        want = (instmodel.weight_class(user) if ax["tag"] == "wght" else
-                instmodel.width_class(user) if ax["tag"] == "wdth" else min(max(user, -90), 90))
-        if snap["info"].get(attr) != want:
-            msgs.append("info/%s model %r got %r (axis user value %r)" % (attr, want, snap["info"].get(attr), user))
-        claims += 1
+    # (No claims about lib['designspace.location'] or about OS/2 weight / width class
+    # and italic angle *derived from axis values*: C19 speaks about the masters' info
+    # and about interpolated coordinates, advances and kerning only; a harmless change
+    # of those conventions must not raise an alarm.)
     for attr, v in model.info_expect(st["loc"]).items():
         got = snap["info"].get(attr)
         if not instmodel.num_close(v, got, model.rg and attr != "italicAngle"):
